@@ -54,7 +54,46 @@ func runExt4(c *hx.Ctx) {
 			ln = 4096
 		}
 		var b []byte
-		switch r.Intn(6) {
+		switch r.Intn(7) {
+		case 6:
+			// unused entries (inode 0): deleted entries and the padding entry of an empty block are legal
+			// (every mke2fs image has them); their rec_len must be validated like any other, so it gets
+			// the boundary values too: 0, 4, 8, 11, 12, the exact tail, past the end of the block
+			m := ln &^ 3
+			if m < 12 {
+				m = 12
+			}
+			if r.Chance(25) { // the empty block: one unused entry that covers it
+				b = make([]byte, m)
+				binary.LittleEndian.PutUint16(b[4:], uint16(m))
+			} else {
+				b = goodDirBlock(r, m)
+			}
+			starts := []int{}
+			for i := 0; i+12 <= len(b); {
+				starts = append(starts, i)
+				rl := int(binary.LittleEndian.Uint16(b[i+4:]))
+				if rl < 12 {
+					break
+				}
+				i += rl
+			}
+			for q := 1 + r.Intn(2); q > 0; q-- {
+				s := hx.Pick(r, starts)
+				binary.LittleEndian.PutUint32(b[s:], 0)
+				if r.Chance(30) {
+					b[s+6] = 0 // no name either
+				}
+				rest := len(b) - s
+				if r.Chance(70) {
+					v := hx.Pick(r, []int{0, 0, 4, 8, 11, 12, rest - 4, rest, rest + 1, rest + 4, rest + 12, 0xFFFF})
+					if v < 0 {
+						v = 0
+					}
+					binary.LittleEndian.PutUint16(b[s+4:], uint16(v))
+				}
+			}
+			c.Stat("ext4dir.family=unused-entries")
 		case 0: // random bytes
 			b = r.Bytes(ln)
 		case 1: // random bytes with small rec_len values
